@@ -261,6 +261,13 @@ def install_seams(run_seed):
     import logging
 
     logging.disable(logging.INFO)
+    import gc
+
+    # the cyclic garbage collector runs finalizers at allocation-count dependent moments (which differ between
+    # a lane's child and a replay child): one more source of nondeterminism behind a seam.  Reference counting
+    # still frees everything acyclic at once; engines that care decide explicitly when leftovers are finalized.
+    gc.collect()
+    gc.disable()
 
 
 def _filters_digest():
